@@ -14,7 +14,8 @@
 
    The graphs are the series-parallel ones the C04 harness generates: node, sequence,
    fan-out/fan-in, branch with re-join, nested graph; every node may carry an input key,
-   an output key, a state pre-handler and a state post-handler.  The superstep scheduling
+   an output key, a state pre-handler and a state post-handler; in a Workflow the data edges
+   leaving a stage may carry field mappings ([PMap]).  The superstep scheduling
    itself (Pregel / DAG channels) is the subject of C01/C02 and is not repeated here: on
    these acyclic graphs it only decides *when* a node runs, not on what. *)
 From Eino Require Import Base.Util Model.Paradigm Model.StreamOps.
@@ -191,6 +192,55 @@ Definition cond_of_spec (c : cspec) : node val nat :=
      nC := if cs_collect c then Some (fun s => do x <- vsconcat s; choice c x) else None;
      nT := None |}.
 
+(* loop conditions: run the body again while the value is smaller than a bound (every
+   harness node makes its input longer, so the loop ends) *)
+Record lspec : Type := { ls_collect : bool; ls_bound : nat; ls_fail : bool }.
+
+Definition loop_choice (c : lspec) (x : val) : res nat :=
+  if ls_fail c then Err e_node else Ok (if Nat.ltb (size_val x) (ls_bound c) then 0%nat else 1%nat).
+
+Definition loop_cond_of_spec (c : lspec) : node val nat :=
+  {| nI := if ls_collect c then None else Some (loop_choice c);
+     nS := None;
+     nC := if ls_collect c then Some (fun s => do x <- vsconcat s; loop_choice c x) else None;
+     nT := None |}.
+
+(* iteration with an explicit bound; running out of it is the distinguished error e_fuel
+   (the implementation has no such bound: [dom_ok] excludes it) *)
+Section LoopIter.
+  Context {X C : Type}.
+  Variable step : nat -> X -> res X.
+  Variable again : X -> res bool.
+  Fixpoint loop_res (fuel : nat) (x : X) : res X :=
+    match fuel with
+    | O => Err e_fuel
+    | S f => do y <- step f x; do b <- again y; if b then loop_res f y else Ok y
+    end.
+
+  Variable callsf : X -> list C.
+  Variable condcall : list C.
+  Fixpoint loop_calls (fuel : nat) (x : X) : list C :=
+    match fuel with
+    | O => []
+    | S f => callsf x ++
+             match step f x with
+             | Ok y => condcall ++ match again y with Ok true => loop_calls f y | _ => [] end
+             | _ => []
+             end
+    end.
+
+  Variable domf : X -> bool.
+  Fixpoint loop_dom (fuel : nat) (x : X) : bool :=
+    match fuel with
+    | O => false
+    | S f => domf x &&
+             match step f x with
+             | Ok y => match again y with Ok true => loop_dom f y | _ => true end
+             | _ => true
+             end
+    end.
+End LoopIter.
+
 (* ------------------------------------------------------------------ graphs *)
 Record wrap : Type := {
   w_pre : option (N * node val val);    (* StatePreHandler / StreamStatePreHandler *)
@@ -204,7 +254,16 @@ Inductive prog : Type :=
 | PSeq (p q : prog)
 | PPar (ps : list prog)                             (* fan-out to every p, fan-in of their outputs *)
 | PBranch (id : N) (c : node val nat) (alts : list prog)   (* branch on the predecessor's output; alternatives re-join *)
-| PSub (w : wrap) (p : prog).                       (* nested graph added as a node *)
+| PSub (w : wrap) (p : prog)                        (* nested graph added as a node *)
+| PMap (f : fmap)                                   (* Workflow: field mapping on the data edges that follow *)
+| PCheck (want_map : bool)                          (* run-time type check on the edges leaving an any-typed node *)
+| PLoop (id : N) (c : node val nat) (body : prog) (fuel : nat).
+    (* cycle: a branch on the body's last node leads back to its first node (choice 0) or on *)
+
+Definition again_value (c : node val nat) (y : val) : res bool :=
+  do i <- view_I nat_concat c y; Ok (Nat.eqb i 0).
+Definition again_stream (c : node val nat) (o : stream val) : res bool :=
+  do i <- view_C vconcat nat_concat c o; Ok (Nat.eqb i 0).
 
 Definition vI (n : node val val) := view_I vconcat n.
 Definition vT (n : node val val) := view_T vconcat n.
@@ -233,6 +292,9 @@ Fixpoint run_value (p : prog) (x : val) : res val :=
       do i <- view_I nat_concat c x;
       nth_apply (fun a => run_value a x) (Err e_branch) alts i
   | PSub w p => wrap_value w (run_value p) x
+  | PMap f => v_fmap f x
+  | PCheck m => v_check m x
+  | PLoop _ c body fuel => loop_res (fun _ => run_value body) (again_value c) fuel x
   end.
 
 (* stream mode; [mrg pos] is the interleaving MergeStreamReaders happens to produce at the
@@ -251,6 +313,9 @@ Section StreamMode.
         do i <- view_C vconcat nat_concat c s;
         nth_apply (fun a => run_stream (i :: pos) a s) (Err e_branch) alts i
     | PSub w p => wrap_stream w (run_stream (0%nat :: pos) p) s
+    | PMap f => Ok (s_fmap f s)
+    | PCheck m => Ok (s_check m s)
+    | PLoop _ c body fuel => loop_res (fun k => run_stream (k :: pos) body) (again_stream c) fuel s
     end.
 
   (* the four public entry points of the compiled object: Invoke runs value mode;
@@ -289,6 +354,11 @@ Fixpoint calls_value (p : prog) (x : val) : list (N * par) :=
       | _ => []
       end
   | PSub w p => wrap_calls PI w (match wrap_inner_value w x with Ok x2 => calls_value p x2 | _ => [] end)
+  | PMap _ => []
+  | PCheck _ => []
+  | PLoop id c body fuel =>
+      loop_calls (fun _ => run_value body) (again_value c) (calls_value body)
+                 (map (fun u => (id, u)) (olist (used c PI))) fuel x
   end.
 
 (* in stream mode the same nodes run (the branch choices agree on successful runs), each
@@ -305,11 +375,17 @@ Fixpoint calls_stream (p : prog) (x : val) : list (N * par) :=
       | _ => []
       end
   | PSub w p => wrap_calls PT w (match wrap_inner_value w x with Ok x2 => calls_stream p x2 | _ => [] end)
+  | PMap _ => []
+  | PCheck _ => []
+  | PLoop id c body fuel =>
+      loop_calls (fun _ => run_value body) (again_value c) (calls_stream body)
+                 (map (fun u => (id, u)) (olist (used c PC))) fuel x
   end.
 
 (* ------------------------------------------------------------------ domain of the property *)
-(* The two places where a stream cannot know what the value run knows (findings F-C04 and
-   F-C04b): a fan-in whose sources share a key, and an input key that no chunk carries.
+(* The places where a stream cannot know what the value run knows (findings F-C04, F-C04b
+   and F-C04c): a fan-in whose sources share a key, an input key that no chunk carries, a
+   field mapping from a map key that no chunk carries.
    [dom_ok p x] follows the value run on input x and is false iff it meets one of them. *)
 Definition fanin_ok (ys : list val) : bool :=
   match ys with
@@ -341,4 +417,7 @@ Fixpoint dom_ok (p : prog) (x : val) : bool :=
       | _ => true
       end
   | PSub w p => inkey_ok w x && match wrap_inner_value w x with Ok x2 => dom_ok p x2 | _ => true end
+  | PMap f => fmap_dom f x
+  | PCheck _ => true
+  | PLoop _ c body fuel => loop_dom (fun _ => run_value body) (again_value c) (dom_ok body) fuel x
   end.
